@@ -59,6 +59,7 @@ var genFiles = []genFile{
 	{Name: "PolicyOrder", ModelImports: []string{"NodeApi"}},
 	{Name: "Limits", ModelImports: []string{"NodeApi"}, Prelude: "variable (ext_self : Node → GoM Unit)\n", Postlude: limitsPostlude},
 	{Name: "PolicyDecode", Imports: []string{"Limits"}, ModelImports: []string{"NodeApi"}, Prelude: "variable (ext_statementsFromIPLD : Node → GoM (List (Option S)))\n"},
+	{Name: "Sealed", Imports: []string{"ChainTypes"}, Prelude: "variable {T : Type} (ext_FromDagCbor : Bytes → GoM T) (ext_dlgFromDagCbor : Bytes → GoM (DlgTok D S)) (ext_invFromDagCbor : Bytes → GoM (InvTok D C A))\n  (ext_CheckCanonical : Bytes → GoM Unit) (ext_CIDFromBytes : Bytes → GoM C)\n"},
 	{Name: "Args", Imports: []string{"Limits"}, ModelImports: []string{"NodeApi"}, Structs: []string{"args.Args"}},
 	{Name: "ChainEntry", Imports: []string{"ChainTypes"}, Prelude: chainEntryPrelude},
 	{Name: "ChainProofsShell", Imports: []string{"ChainTypes"}, Prelude: "variable (ext_Covers : Bytes → Bytes → GoM Bool)\n"},
@@ -85,6 +86,9 @@ var targets = []target{
 		Concrete: []string{"datamodel.Node"}, SelfAs: "ext_self", Uses: []string{"ext_self"}},
 	{Dir: "pkg/args", Recv: "Args", Name: "Validate", Lean: "Args_Validate", File: "Args", Concrete: []string{"args.Args", "*args.Args", "datamodel.Node"}},
 	{Dir: "pkg/policy", Name: "FromIPLD", Lean: "Policy_FromIPLD", File: "PolicyDecode", Concrete: []string{"datamodel.Node"}, Uses: []string{"ext_statementsFromIPLD"}},
+	{Dir: "token", Name: "FromSealed", Lean: "token_FromSealed", File: "Sealed", Uses: []string{"ext_FromDagCbor", "ext_CheckCanonical", "ext_CIDFromBytes"}},
+	{Dir: "token/delegation", Name: "FromSealed", Lean: "Dlg_FromSealed", File: "Sealed", Uses: []string{"ext_dlgFromDagCbor", "ext_CheckCanonical", "ext_CIDFromBytes"}},
+	{Dir: "token/invocation", Name: "FromSealed", Lean: "Inv_FromSealed", File: "Sealed", Uses: []string{"ext_invFromDagCbor", "ext_CheckCanonical", "ext_CIDFromBytes"}},
 	{Dir: "pkg/policy", Name: "parseGlob", Lean: "parseGlob", File: "Glob", Fuel: []string{"pattern.length + 1"}},
 	{Dir: "pkg/policy", Recv: "glob", Name: "Match", Lean: "glob_Match", File: "Glob",
 		Fuel: []string{"(str.length + 1) * (pattern.length + 2) + 1", "pattern.length + 1"}},
@@ -179,6 +183,7 @@ var typeTable = map[string]string{
 	"meta.Meta":         "M",   // opaque: only handed on (a nil *meta.Meta is replaced by a fresh one)
 	"multicodec.Code":   "Int", // a multicodec code is an unsigned varint; only compared with constants
 	"args.ReadOnly":     "R",   // the read-only view handed to an argument hook
+	"token.Token":       "T",   // the interface both token types satisfy: only handed on
 }
 
 // structDef is a Go struct whose listed fields are modelled; the Lean structure is generated from the
@@ -281,7 +286,7 @@ var concreteTable = map[string]string{
 
 // impureLibCalls: library functions that can fail — their translation is a GoM computation
 var impureLibCalls = map[string]bool{"lookupByIndex__": true, "mbase.Decode": true, "varint.FromUvarint": true, "did.Parse": true, "parse.OptionalDID": true,
-	"command.Parse": true, "command.IsValid": true, "limits.ValidateIntegerBoundsIPLD": true, "policy.FromIPLD": true, "parse.OptionalTimestamp": true}
+	"command.Parse": true, "command.IsValid": true, "envelope.CheckCanonicalDagCbor": true, "envelope.CIDFromBytes": true, "limits.ValidateIntegerBoundsIPLD": true, "policy.FromIPLD": true, "parse.OptionalTimestamp": true}
 
 // libCalls: standard-library functions with their model. `lower` (strings.ToLower) stays a parameter.
 var libCalls = map[string]libCall{
@@ -304,6 +309,8 @@ var libCalls = map[string]libCall{
 	"policy.FromIPLD":                  {"(ext_policyFromIPLD $1)", ty{"(List (Option S))", "policy.Policy"}, []string{"ext_policyFromIPLD"}},
 	"parse.OptionalTimestamp":          {"(OptionalTimestamp $1)", ty{"(Option Int)", "*time.Time"}, nil},
 	"limits.ValidateIntegerBoundsIPLD": {"(ValidateIntegerBoundsIPLD_run $1)", ty{"Unit", "unit"}, nil},
+	"envelope.CheckCanonicalDagCbor":   {"(ext_CheckCanonical $1)", ty{"Unit", "unit"}, []string{"ext_CheckCanonical"}},
+	"envelope.CIDFromBytes":            {"(ext_CIDFromBytes $1)", ty{"C", "cid.Cid"}, []string{"ext_CIDFromBytes"}},
 	"meta.NewMeta":                     {"(some ext_newMeta)", ty{"(Option M)", "*meta.Meta"}, []string{"ext_newMeta"}},
 	// pseudo-functions the map-iterator rewrite produces
 	"listEntries__": {"(listEntries $1)", ty{"(List Node)", "[]datamodel.Node"}, nil},
@@ -360,6 +367,10 @@ var externFuncs = map[string]libCall{
 	"pkg/policy.matchStatement": {"(ext_matchStatement $1 $2)", ty{"(Int × (Option S))", "pair"}, []string{"ext_matchStatement"}},
 	// the recursive statement decoder (type switches over an interface, closures that return values): a parameter of FromIPLD's
 	// translation; the path argument only feeds error texts
+	// the three FromSealed functions: decoding, the canonical-form check and the CID are parameters
+	"token.FromDagCbor":             {"(← (ext_FromDagCbor $1))", ty{"T", "token.Token"}, []string{"ext_FromDagCbor"}},
+	"token/delegation.FromDagCbor":  {"(← (ext_dlgFromDagCbor $1))", ty{"(DlgTok D S)", "delegation.Token"}, []string{"ext_dlgFromDagCbor"}},
+	"token/invocation.FromDagCbor":  {"(← (ext_invFromDagCbor $1))", ty{"(InvTok D C A)", "invocation.Token"}, []string{"ext_invFromDagCbor"}},
 	"pkg/policy.statementsFromIPLD": {"(← (ext_statementsFromIPLD $2))", ty{"(List (Option S))", "policy.Policy"}, []string{"ext_statementsFromIPLD"}},
 }
 
@@ -391,6 +402,11 @@ var useTypes = map[string]string{
 	"ext_argsValidate":       "A → GoM Unit",
 	"ext_fromUvarint":        "Bytes → GoM (Int × Int)",
 	"ext_undef":              "D",
+	"ext_FromDagCbor":        "Bytes → GoM T",
+	"ext_dlgFromDagCbor":     "Bytes → GoM (DlgTok D S)",
+	"ext_invFromDagCbor":     "Bytes → GoM (InvTok D C A)",
+	"ext_CheckCanonical":     "Bytes → GoM Unit",
+	"ext_CIDFromBytes":       "Bytes → GoM C",
 	"ext_statementsFromIPLD": "Node → GoM (List (Option S))",
 	"ext_self":               "Node → GoM Unit", // limits.ValidateIntegerBoundsIPLD calling itself (open recursion)
 }
